@@ -1,8 +1,1843 @@
-//! C09 timers never fire early and always fire — not built yet.
+//! C09 — timers never fire early and always fire.
+//!
+//! Seeded programs over the real `compio_runtime::time` API on a real clock
+//! (small durations), on both drivers, each in a fresh `Runtime`:
+//!
+//! * deadline sets of 1..64 `sleep` / `sleep_until` / `timeout` /
+//!   `timeout_at` futures {past, now, equal, 1 ns / 1 us apart, ms apart,
+//!   clusters >= 300 ms apart, far}, spread over the main future and spawned
+//!   tasks, created at start / lazily / from other timers' completions,
+//!   awaited / polled once and parked / never polled / held after firing,
+//!   dropped from other timers' tasks, racing pipe reads completed from
+//!   another thread and cross-thread wakes;
+//! * timeouts around scripted inner futures (ready at poll k, ready once an
+//!   instant has passed, ready on a cross-thread flag, a real pipe read);
+//! * intervals with async gaps, blocking gaps (missed ticks) and abandoned
+//!   tick futures;
+//! * re-entrant programs: a timer's waker drops / creates another timer from
+//!   inside `wake()`.
+//!
+//! The oracle is the online monitor in `c09_mon.rs`; this file holds the
+//! program model, the generator, the executor and the reporting.
 
-use vcommon::Args;
+#[path = "c09_mon.rs"]
+mod mon;
 
-pub fn main(_args: &Args) {
-    eprintln!("c09: not implemented");
-    std::process::exit(3);
+use std::{
+    cell::{Cell, RefCell},
+    future::Future,
+    os::fd::{FromRawFd, OwnedFd},
+    pin::Pin,
+    rc::Rc,
+    sync::{
+        Arc, Mutex,
+        atomic::{AtomicBool, AtomicI64, AtomicU64, Ordering},
+        mpsc,
+    },
+    task::{Context, Poll, Waker},
+    time::{Duration, Instant},
+};
+
+use compio_buf::BufResult;
+use compio_driver::{DriverType, ProactorBuilder, verif};
+use compio_io::AsyncRead;
+use compio_runtime::{Runtime, fd::AsyncFd, time};
+use mon::{Mon, Out, Probe, TickSrc, Track, Tracked, aborted, base, ns, now_ns, touch, with_mon};
+use vcommon::{Args, Report, Rng, Value, json, panics};
+
+// ---------------------------------------------------------------------------
+// Program model
+// ---------------------------------------------------------------------------
+
+#[derive(Clone, Copy, PartialEq, Eq, Debug)]
+enum Drv {
+    Iour,
+    Poll,
+}
+
+impl Drv {
+    fn name(self) -> &'static str {
+        match self {
+            Drv::Iour => "iour",
+            Drv::Poll => "poll",
+        }
+    }
+}
+
+#[derive(Clone, Copy, PartialEq, Eq, Debug)]
+enum Api {
+    Sleep,
+    SleepUntil,
+    Timeout,
+    TimeoutAt,
+}
+
+impl Api {
+    fn name(self) -> &'static str {
+        match self {
+            Api::Sleep => "sleep",
+            Api::SleepUntil => "sleep_until",
+            Api::Timeout => "timeout",
+            Api::TimeoutAt => "timeout_at",
+        }
+    }
+
+    fn is_timeout(self) -> bool {
+        matches!(self, Api::Timeout | Api::TimeoutAt)
+    }
+}
+
+/// Deadline: before the creation instant, the creation instant, or program
+/// start + offset (ns).
+#[derive(Clone, Copy, Debug)]
+enum When {
+    Past(u64),
+    Now,
+    At(i64),
+}
+
+const FAR_NS: i64 = 2_000_000_000;
+
+impl When {
+    fn off(self) -> i64 {
+        match self {
+            When::At(o) => o,
+            _ => 0,
+        }
+    }
+
+    fn is_far(self) -> bool {
+        self.off() >= FAR_NS
+    }
+}
+
+#[derive(Clone, Copy, PartialEq, Eq, Debug)]
+enum Fate {
+    /// Polled until ready.
+    Await,
+    /// Polled once, then kept (waiting) until dropped.
+    Park,
+    /// Created, never polled.
+    NoPoll,
+}
+
+/// Inner future of a timeout.
+#[derive(Clone, Copy, Debug)]
+enum Script {
+    Never,
+    /// Ready at its k-th poll; re-arms itself (wake_by_ref) or not.
+    AtPoll { k: u32, selfwake: bool },
+    /// Ready when polled at or after start + off; never wakes.
+    WhenPast(i64),
+    /// Ready once another thread set a flag (and woke) at start + off.
+    XWake(i64),
+    /// A pipe read; another thread writes at start + off.
+    Io(i64),
+}
+
+#[derive(Clone, Copy, Debug)]
+enum Act {
+    Drop(usize),
+    Create(usize),
+}
+
+#[derive(Clone, Debug)]
+struct TSpec {
+    api: Api,
+    when: When,
+    host: usize,
+    by_act: bool,
+    fate: Fate,
+    hold: bool,
+    fresh: bool,
+    script: Script,
+    on_done: Vec<Act>,
+    on_wake: Vec<Act>,
+}
+
+#[derive(Clone, Copy, Debug)]
+enum Gap {
+    None,
+    Yield,
+    Async(u64),
+    Block(u64),
+}
+
+#[derive(Clone, Debug)]
+struct IvSpec {
+    start: When,
+    /// `interval(period)` instead of `interval_at(start, period)`.
+    plain: bool,
+    period: u64,
+    ticks: Vec<(Gap, bool)>,
+}
+
+#[derive(Clone, Debug)]
+struct Prog {
+    family: &'static str,
+    shape: String,
+    drv: Drv,
+    ev_int: usize,
+    lazy: bool,
+    nhosts: usize,
+    timers: Vec<TSpec>,
+    order: Vec<usize>,
+    end_order: Vec<usize>,
+    ios: Vec<i64>,
+    xws: Vec<i64>,
+    ivs: Vec<IvSpec>,
+    idle_ms: u64,
+    ct_prob: usize,
+}
+
+fn when_json(w: When) -> Value {
+    match w {
+        When::Past(n) => json!({"past_ns": n}),
+        When::Now => json!("now"),
+        When::At(o) => json!({"start_plus_ns": o}),
+    }
+}
+
+fn acts_json(a: &[Act]) -> Value {
+    Value::Array(
+        a.iter()
+            .map(|a| match a {
+                Act::Drop(i) => json!({"drop": i}),
+                Act::Create(i) => json!({"create": i}),
+            })
+            .collect(),
+    )
+}
+
+impl Prog {
+    fn to_json(&self) -> Value {
+        let timers: Vec<Value> = self
+            .timers
+            .iter()
+            .enumerate()
+            .map(|(i, t)| {
+                let mut v = json!({
+                    "id": i, "api": t.api.name(), "deadline": when_json(t.when), "host": t.host,
+                    "fate": format!("{:?}", t.fate),
+                });
+                let o = v.as_object_mut().unwrap();
+                if t.by_act {
+                    o.insert("created_by_action".into(), json!(true));
+                }
+                if t.hold {
+                    o.insert("held_after_completion".into(), json!(true));
+                }
+                if t.fresh {
+                    o.insert("fresh_waker_each_poll".into(), json!(true));
+                }
+                if t.api.is_timeout() {
+                    o.insert("inner".into(), json!(format!("{:?}", t.script)));
+                }
+                if !t.on_done.is_empty() {
+                    o.insert("on_done".into(), acts_json(&t.on_done));
+                }
+                if !t.on_wake.is_empty() {
+                    o.insert("in_waker".into(), acts_json(&t.on_wake));
+                }
+                v
+            })
+            .collect();
+        let ivs: Vec<Value> = self
+            .ivs
+            .iter()
+            .map(|i| json!({"start": when_json(i.start), "plain_interval": i.plain, "period_ns": i.period, "ticks": format!("{:?}", i.ticks)}))
+            .collect();
+        json!({
+            "family": self.family, "shape": self.shape, "driver": self.drv.name(), "event_interval": self.ev_int,
+            "lazy_create": self.lazy, "hosts": self.nhosts, "timers": timers, "create_order": self.order,
+            "end_drop_order": self.end_order, "pipe_writes_at_ns": self.ios, "cross_wakes_at_ns": self.xws,
+            "intervals": ivs, "idle_ms": self.idle_ms,
+        })
+    }
+
+    fn events(&self) -> String {
+        let mut ev: Vec<&str> = Vec::new();
+        let mut add = |c: bool, s: &'static str| {
+            if c && !ev.contains(&s) {
+                ev.push(s)
+            }
+        };
+        for t in &self.timers {
+            add(t.on_done.iter().any(|a| matches!(a, Act::Drop(_))), "drop");
+            add(t.on_done.iter().any(|a| matches!(a, Act::Create(_))), "create");
+            add(t.on_wake.iter().any(|a| matches!(a, Act::Drop(_))), "dropw");
+            add(t.on_wake.iter().any(|a| matches!(a, Act::Create(_))), "createw");
+            add(t.fate == Fate::Park, "park");
+            add(t.fate == Fate::NoPoll, "nopoll");
+            add(t.hold, "hold");
+            add(t.fresh, "fresh");
+            add(matches!(t.when, When::Past(_)), "past");
+            add(matches!(t.when, When::Now), "now");
+            add(t.when.is_far(), "far");
+            add(t.api.is_timeout(), "tmo");
+            add(matches!(t.script, Script::Io(_)) && t.api.is_timeout(), "tmo-io");
+            add(matches!(t.script, Script::XWake(_)) && t.api.is_timeout(), "tmo-xwake");
+        }
+        add(self.nhosts > 1, "tasks");
+        add(!self.ios.is_empty(), "io");
+        add(!self.xws.is_empty(), "xwake");
+        add(self.lazy, "lazy");
+        for i in &self.ivs {
+            add(i.plain, "iv-plain");
+            add(!i.plain, "iv-at");
+            add(i.ticks.iter().any(|t| matches!(t.0, Gap::Block(_))), "iv-block");
+            add(i.ticks.iter().any(|t| matches!(t.0, Gap::Async(_))), "iv-async");
+            add(i.ticks.iter().any(|t| t.1), "iv-abandon");
+        }
+        ev.sort();
+        ev.join(",")
+    }
+
+    fn sig(&self) -> String {
+        let n = self.timers.len();
+        let b = match n {
+            0 => "n0",
+            1 => "n1",
+            2..=4 => "n2-4",
+            5..=16 => "n5-16",
+            _ => "n17-64",
+        };
+        format!("{}/{}/{}/{}/{}", self.family, self.shape, b, self.events(), self.drv.name())
+    }
+
+    /// Latest instant (ns after start) anything awaited in the program is
+    /// scheduled for.
+    fn horizon(&self) -> i64 {
+        let mut h = 0i64;
+        for t in &self.timers {
+            if !t.when.is_far() {
+                h = h.max(t.when.off());
+            }
+        }
+        for o in self.ios.iter().chain(self.xws.iter()) {
+            h = h.max(*o);
+        }
+        for i in &self.ivs {
+            let mut tot = i.start.off().min(FAR_NS);
+            for (g, _) in &i.ticks {
+                tot += i.period as i64;
+                if let Gap::Async(x) | Gap::Block(x) = g {
+                    tot += *x as i64;
+                }
+            }
+            h = h.max(tot);
+        }
+        h
+    }
+}
+
+// ---------------------------------------------------------------------------
+// Helper threads: kicker (pipe writes / cross-thread wakes) and heartbeat
+// ---------------------------------------------------------------------------
+
+struct XFlag {
+    set: AtomicBool,
+    waker: Mutex<Option<Waker>>,
+}
+
+impl XFlag {
+    fn new() -> Arc<Self> {
+        Arc::new(Self {
+            set: AtomicBool::new(false),
+            waker: Mutex::new(None),
+        })
+    }
+}
+
+struct XWait(Arc<XFlag>);
+
+impl Future for XWait {
+    type Output = ();
+
+    fn poll(self: Pin<&mut Self>, cx: &mut Context<'_>) -> Poll<()> {
+        if self.0.set.load(Ordering::SeqCst) {
+            return Poll::Ready(());
+        }
+        *self.0.waker.lock().unwrap() = Some(cx.waker().clone());
+        if self.0.set.load(Ordering::SeqCst) {
+            Poll::Ready(())
+        } else {
+            Poll::Pending
+        }
+    }
+}
+
+enum Cmd {
+    Write(Instant, OwnedFd),
+    Flag(Instant, Arc<XFlag>),
+}
+
+impl Cmd {
+    fn at(&self) -> Instant {
+        match self {
+            Cmd::Write(a, _) | Cmd::Flag(a, _) => *a,
+        }
+    }
+
+    fn fire(self) {
+        match self {
+            Cmd::Write(_, fd) => {
+                use std::os::fd::AsRawFd;
+                let b = [0x5au8];
+                unsafe { libc::write(fd.as_raw_fd(), b.as_ptr().cast(), 1) };
+            }
+            Cmd::Flag(_, f) => {
+                f.set.store(true, Ordering::SeqCst);
+                let w = f.waker.lock().unwrap().take();
+                if let Some(w) = w {
+                    w.wake();
+                }
+            }
+        }
+    }
+}
+
+fn kicker(rx: mpsc::Receiver<Cmd>) {
+    let mut q: Vec<Cmd> = Vec::new();
+    loop {
+        let next = q.iter().map(|c| c.at()).min();
+        match next {
+            None => match rx.recv() {
+                Ok(c) => q.push(c),
+                Err(_) => return,
+            },
+            Some(at) => {
+                let now = Instant::now();
+                if at <= now + Duration::from_micros(150) {
+                    while Instant::now() < at {
+                        std::hint::spin_loop();
+                    }
+                    let now = Instant::now();
+                    let mut i = 0;
+                    while i < q.len() {
+                        if q[i].at() <= now {
+                            q.swap_remove(i).fire();
+                        } else {
+                            i += 1;
+                        }
+                    }
+                } else {
+                    match rx.recv_timeout(at - now - Duration::from_micros(100)) {
+                        Ok(c) => q.push(c),
+                        Err(mpsc::RecvTimeoutError::Timeout) => {}
+                        Err(mpsc::RecvTimeoutError::Disconnected) => return,
+                    }
+                }
+            }
+        }
+    }
+}
+
+static STALLS: AtomicU64 = AtomicU64::new(0);
+static MAX_HB_GAP_NS: AtomicI64 = AtomicI64::new(0);
+static WD_DEADLINE: AtomicI64 = AtomicI64::new(0);
+static MAIN_WAKER: Mutex<Option<Waker>> = Mutex::new(None);
+const HB_STALL: Duration = Duration::from_millis(40);
+
+fn heartbeat(rep: Arc<Mutex<Report>>) {
+    let tick = Duration::from_millis(2);
+    let mut last = Instant::now();
+    loop {
+        std::thread::sleep(tick);
+        let now = Instant::now();
+        let gap = now - last;
+        MAX_HB_GAP_NS.fetch_max(gap.as_nanos() as i64, Ordering::Relaxed);
+        if gap > tick + HB_STALL {
+            STALLS.fetch_add(1, Ordering::SeqCst);
+        }
+        last = now;
+        let wd = WD_DEADLINE.load(Ordering::SeqCst);
+        if wd != 0 && ns(now) > wd {
+            mon::abort("watchdog");
+            let w = MAIN_WAKER.lock().unwrap_or_else(|e| e.into_inner()).clone();
+            if let Some(w) = w {
+                w.wake();
+            }
+            if ns(now) > wd + 15_000_000_000 {
+                // the runtime thread does not even react to a wake-up
+                let mut r = rep.lock().unwrap_or_else(|e| e.into_inner());
+                r.inconclusive("hard hang: runtime thread did not return 15 s after the watchdog woke it");
+                r.finish();
+                std::process::exit(0);
+            }
+        }
+    }
+}
+
+// ---------------------------------------------------------------------------
+// Small futures
+// ---------------------------------------------------------------------------
+
+struct PollCount {
+    n: u32,
+    k: u32,
+    selfwake: bool,
+}
+
+impl Future for PollCount {
+    type Output = ();
+
+    fn poll(mut self: Pin<&mut Self>, cx: &mut Context<'_>) -> Poll<()> {
+        self.n += 1;
+        if self.n >= self.k {
+            Poll::Ready(())
+        } else {
+            if self.selfwake {
+                cx.waker().wake_by_ref();
+            }
+            Poll::Pending
+        }
+    }
+}
+
+struct WhenPastFut(Instant);
+
+impl Future for WhenPastFut {
+    type Output = ();
+
+    fn poll(self: Pin<&mut Self>, _: &mut Context<'_>) -> Poll<()> {
+        if Instant::now() >= self.0 { Poll::Ready(()) } else { Poll::Pending }
+    }
+}
+
+struct YieldOnce(bool);
+
+impl Future for YieldOnce {
+    type Output = ();
+
+    fn poll(mut self: Pin<&mut Self>, cx: &mut Context<'_>) -> Poll<()> {
+        if self.0 {
+            Poll::Ready(())
+        } else {
+            self.0 = true;
+            cx.waker().wake_by_ref();
+            Poll::Pending
+        }
+    }
+}
+
+/// `Sleep` mapped to `Out`; unlike an async block it keeps the compio future
+/// alive after completion, until the wrapper itself is dropped.
+struct KeepSleep(time::Sleep);
+
+impl Future for KeepSleep {
+    type Output = Out;
+
+    fn poll(mut self: Pin<&mut Self>, cx: &mut Context<'_>) -> Poll<Out> {
+        Pin::new(&mut self.0).poll(cx).map(|()| Out::Unit)
+    }
+}
+
+/// Same for `Timeout`: after `Ok` its `Sleep` stays registered until drop.
+struct KeepTimeout(time::Timeout<Tracked>);
+
+impl Future for KeepTimeout {
+    type Output = Out;
+
+    fn poll(mut self: Pin<&mut Self>, cx: &mut Context<'_>) -> Poll<Out> {
+        Pin::new(&mut self.0).poll(cx).map(|r| Out::Tmo(r.map_err(|_| ())))
+    }
+}
+
+/// Poll a probe exactly once.
+struct PollOnce<'a, 'b>(&'a mut Probe<'b>);
+
+impl Future for PollOnce<'_, '_> {
+    type Output = Option<Out>;
+
+    fn poll(mut self: Pin<&mut Self>, cx: &mut Context<'_>) -> Poll<Option<Out>> {
+        match Pin::new(&mut *self.0).poll(cx) {
+            Poll::Ready(o) => Poll::Ready(Some(o)),
+            Poll::Pending => Poll::Ready(None),
+        }
+    }
+}
+
+/// The future handed to `block_on`: publishes its waker for the watchdog and
+/// gives up when the program was aborted.
+struct MainFut<F>(Pin<Box<F>>);
+
+impl<F: Future<Output = ()>> Future for MainFut<F> {
+    type Output = bool;
+
+    fn poll(mut self: Pin<&mut Self>, cx: &mut Context<'_>) -> Poll<bool> {
+        {
+            let mut g = MAIN_WAKER.lock().unwrap_or_else(|e| e.into_inner());
+            if !g.as_ref().is_some_and(|w| w.will_wake(cx.waker())) {
+                *g = Some(cx.waker().clone());
+            }
+        }
+        if aborted() {
+            return Poll::Ready(false);
+        }
+        touch();
+        let r = self.0.as_mut().poll(cx).map(|()| true);
+        touch();
+        r
+    }
+}
+
+// ---------------------------------------------------------------------------
+// World: the shared state of one running program
+// ---------------------------------------------------------------------------
+
+#[derive(Default)]
+struct Slot {
+    fut: RefCell<Option<Probe<'static>>>,
+    created: Cell<bool>,
+    cancelled: Cell<bool>,
+    settled: Cell<bool>,
+    polled: Cell<bool>,
+    done: Cell<bool>,
+}
+
+#[derive(Default)]
+struct Counters {
+    tmo_ok: Cell<u64>,
+    tmo_err: Cell<u64>,
+    tmo_ok_at_expiry: Cell<u64>,
+    ticks: Cell<u64>,
+    missed_ticks: Cell<u64>,
+    tick_model_mismatch: Cell<u64>,
+    io_done: Cell<u64>,
+    io_err: Cell<u64>,
+    xw_done: Cell<u64>,
+    acts_drop: Cell<u64>,
+    acts_drop_in_other_task: Cell<u64>,
+    acts_create: Cell<u64>,
+    created_past: Cell<u64>,
+}
+
+fn bump(c: &Cell<u64>) {
+    c.set(c.get() + 1)
+}
+
+struct World {
+    prog: Prog,
+    slots: Vec<Slot>,
+    wakers: RefCell<Vec<Option<Waker>>>,
+    dirty: Vec<Cell<bool>>,
+    cur_host: Cell<usize>,
+    t0: Cell<Instant>,
+    kick: mpsc::Sender<Cmd>,
+    last_cmd: Cell<Instant>,
+    rng: RefCell<Rng>,
+    cnt: Counters,
+    next_value: Cell<u64>,
+}
+
+fn nb_pipe() -> Option<(OwnedFd, OwnedFd)> {
+    let mut fds = [0i32; 2];
+    let r = unsafe { libc::pipe2(fds.as_mut_ptr(), libc::O_CLOEXEC | libc::O_NONBLOCK) };
+    if r != 0 {
+        return None;
+    }
+    Some(unsafe { (OwnedFd::from_raw_fd(fds[0]), OwnedFd::from_raw_fd(fds[1])) })
+}
+
+fn add_ns(t: Instant, off: i64) -> Instant {
+    t.checked_add(Duration::from_nanos(off.max(0) as u64))
+        .unwrap_or_else(|| t + Duration::from_secs(86_400 * 365))
+}
+
+impl World {
+    fn new(prog: Prog, kick: mpsc::Sender<Cmd>, rng: Rng) -> Rc<Self> {
+        let n = prog.timers.len();
+        let nh = prog.nhosts;
+        Rc::new(Self {
+            prog,
+            slots: (0..n).map(|_| Slot::default()).collect(),
+            wakers: RefCell::new(vec![None; nh]),
+            dirty: (0..nh).map(|_| Cell::new(false)).collect(),
+            cur_host: Cell::new(usize::MAX),
+            t0: Cell::new(Instant::now()),
+            kick,
+            last_cmd: Cell::new(Instant::now()),
+            rng: RefCell::new(rng),
+            cnt: Counters::default(),
+            next_value: Cell::new(1000),
+        })
+    }
+
+    fn send(&self, c: Cmd) {
+        if c.at() > self.last_cmd.get() {
+            self.last_cmd.set(c.at());
+        }
+        let _ = self.kick.send(c);
+    }
+
+    fn resolve(&self, when: When, c0: Instant) -> Instant {
+        match when {
+            When::Past(n) => c0.checked_sub(Duration::from_nanos(n)).unwrap_or_else(base),
+            When::Now => c0,
+            When::At(off) => add_ns(self.t0.get(), off),
+        }
+    }
+
+    fn script_fut(self: &Rc<Self>, s: Script) -> Pin<Box<dyn Future<Output = ()>>> {
+        match s {
+            Script::Never => Box::pin(std::future::pending::<()>()),
+            Script::AtPoll { k, selfwake } => Box::pin(PollCount { n: 0, k, selfwake }),
+            Script::WhenPast(off) => Box::pin(WhenPastFut(add_ns(self.t0.get(), off))),
+            Script::XWake(off) => {
+                let f = XFlag::new();
+                self.send(Cmd::Flag(add_ns(self.t0.get(), off), f.clone()));
+                Box::pin(XWait(f))
+            }
+            Script::Io(off) => {
+                let w = self.clone();
+                match nb_pipe() {
+                    Some((r, wr)) => {
+                        self.send(Cmd::Write(add_ns(self.t0.get(), off), wr));
+                        Box::pin(async move {
+                            if !pipe_read(r).await {
+                                bump(&w.cnt.io_err);
+                                std::future::pending::<()>().await;
+                            }
+                            bump(&w.cnt.io_done);
+                        })
+                    }
+                    None => Box::pin(std::future::pending::<()>()),
+                }
+            }
+        }
+    }
+
+    /// Create spec timer `id` (the compio future is built right here).
+    fn create(self: &Rc<Self>, id: usize) {
+        let s = &self.slots[id];
+        if s.created.get() || s.cancelled.get() {
+            return;
+        }
+        let spec = &self.prog.timers[id];
+        let api = spec.api.name();
+        let track = spec.api.is_timeout().then(|| {
+            let v = self.next_value.get();
+            self.next_value.set(v + 1);
+            Track::new(v)
+        });
+        let inner = track.as_ref().map(|t| Tracked::new(self.script_fut(spec.script), t.clone()));
+        let c0 = Instant::now();
+        let target = self.resolve(spec.when, c0);
+        let dur = target.saturating_duration_since(c0);
+        let (fut, d_lo, d_hi, c1): (Pin<Box<dyn Future<Output = Out>>>, Instant, Instant, Instant) = match spec.api {
+            Api::Sleep => {
+                let f = time::sleep(dur);
+                let c1 = Instant::now();
+                (Box::pin(KeepSleep(f)), c0 + dur, c1 + dur, c1)
+            }
+            Api::SleepUntil => {
+                let f = time::sleep_until(target);
+                let c1 = Instant::now();
+                (Box::pin(KeepSleep(f)), target, target, c1)
+            }
+            Api::Timeout => {
+                let f = time::timeout(dur, inner.unwrap());
+                let c1 = Instant::now();
+                (Box::pin(KeepTimeout(f)), c0 + dur, c1 + dur, c1)
+            }
+            Api::TimeoutAt => {
+                let f = time::timeout_at(target, inner.unwrap());
+                let c1 = Instant::now();
+                (Box::pin(KeepTimeout(f)), target, target, c1)
+            }
+        };
+        if d_hi <= c1 {
+            bump(&self.cnt.created_past);
+        }
+        let mut p = Probe::new(api, fut)
+            .with_track(track)
+            .with_fresh(spec.fresh)
+            .with_token((!spec.on_wake.is_empty()).then_some(id));
+        let woken = p.woken.clone();
+        p.rec = with_mon(|m| m.create(api, ns(d_lo), ns(d_hi), ns(c0), ns(c1), woken));
+        *s.fut.borrow_mut() = Some(p);
+        s.created.set(true);
+        self.poke(spec.host);
+    }
+
+    /// Mark the host of a timer dirty and wake it.
+    fn poke(&self, host: usize) {
+        self.dirty[host].set(true);
+        if self.cur_host.get() != host {
+            let w = self.wakers.borrow()[host].clone();
+            if let Some(w) = w {
+                w.wake();
+            }
+        }
+    }
+
+    fn act(self: &Rc<Self>, a: Act) {
+        match a {
+            Act::Drop(v) => {
+                let s = &self.slots[v];
+                bump(&self.cnt.acts_drop);
+                if self.cur_host.get() != self.prog.timers[v].host {
+                    bump(&self.cnt.acts_drop_in_other_task);
+                }
+                let f = s.fut.borrow_mut().take();
+                if !s.created.get() {
+                    s.cancelled.set(true);
+                }
+                s.settled.set(true);
+                self.poke(self.prog.timers[v].host);
+                drop(f);
+            }
+            Act::Create(c) => {
+                bump(&self.cnt.acts_create);
+                self.create(c);
+            }
+        }
+    }
+
+    fn probe_ct(&self) {
+        let t0 = now_ns();
+        let ct = Runtime::with_current(|r| r.current_timeout());
+        let t1 = now_ns();
+        with_mon(|m| m.probe_ct(t0, ct, t1));
+    }
+
+    fn maybe_probe_ct(&self) {
+        let p = self.prog.ct_prob;
+        if p > 0 && self.rng.borrow_mut().chance(p, 100) {
+            self.probe_ct();
+        }
+    }
+
+    /// Poll spec timer `id` once. Returns true when it is settled.
+    fn poll_slot(self: &Rc<Self>, id: usize, cx: &mut Context<'_>) -> bool {
+        let s = &self.slots[id];
+        let spec = &self.prog.timers[id];
+        let (r, d_hi) = {
+            let mut g = s.fut.borrow_mut();
+            let Some(p) = g.as_mut() else {
+                s.settled.set(true);
+                return true;
+            };
+            let d_hi = p.rec.and_then(|r| with_mon(|m| m.recs[r].d_hi)).unwrap_or(i64::MAX);
+            (Pin::new(p).poll(cx), d_hi)
+        };
+        s.polled.set(true);
+        match r {
+            Poll::Ready(out) => {
+                s.done.set(true);
+                s.settled.set(true);
+                match out {
+                    Out::Tmo(Ok(_)) => {
+                        bump(&self.cnt.tmo_ok);
+                        if now_ns() >= d_hi {
+                            bump(&self.cnt.tmo_ok_at_expiry);
+                        }
+                    }
+                    Out::Tmo(Err(())) => bump(&self.cnt.tmo_err),
+                    _ => {}
+                }
+                if !spec.hold {
+                    let f = s.fut.borrow_mut().take();
+                    drop(f);
+                }
+                for a in spec.on_done.iter() {
+                    self.act(*a);
+                }
+                true
+            }
+            Poll::Pending => false,
+        }
+    }
+
+    fn clear(&self) {
+        for s in &self.slots {
+            let f = s.fut.borrow_mut().take();
+            drop(f);
+        }
+    }
+}
+
+async fn pipe_read(r: OwnedFd) -> bool {
+    let Ok(mut fd) = AsyncFd::new(r) else {
+        return false;
+    };
+    let BufResult(res, buf) = fd.read(Vec::with_capacity(4)).await;
+    matches!(res, Ok(1)) && buf.first() == Some(&0x5a)
+}
+
+/// One host: polls its member timers.
+struct Group {
+    w: Rc<World>,
+    host: usize,
+    members: Vec<usize>,
+    first: bool,
+}
+
+impl Future for Group {
+    type Output = ();
+
+    fn poll(self: Pin<&mut Self>, cx: &mut Context<'_>) -> Poll<()> {
+        let me = self.get_mut();
+        let w = me.w.clone();
+        if aborted() {
+            return Poll::Ready(());
+        }
+        touch();
+        {
+            let mut ws = w.wakers.borrow_mut();
+            if !ws[me.host].as_ref().is_some_and(|x| x.will_wake(cx.waker())) {
+                ws[me.host] = Some(cx.waker().clone());
+            }
+        }
+        let prev_host = w.cur_host.replace(me.host);
+        if me.first {
+            me.first = false;
+            if w.prog.lazy {
+                for &id in w.prog.order.iter() {
+                    if w.prog.timers[id].host == me.host {
+                        w.create(id);
+                    }
+                }
+                w.maybe_probe_ct();
+            }
+        }
+        let mut all;
+        loop {
+            w.dirty[me.host].set(false);
+            all = true;
+            for &id in &me.members {
+                let s = &w.slots[id];
+                if s.settled.get() {
+                    continue;
+                }
+                if !s.created.get() {
+                    all = false;
+                    continue;
+                }
+                match w.prog.timers[id].fate {
+                    Fate::NoPoll => s.settled.set(true),
+                    Fate::Park => {
+                        if !s.polled.get() {
+                            w.poll_slot(id, cx);
+                        }
+                        s.settled.set(true);
+                    }
+                    Fate::Await => {
+                        if !w.poll_slot(id, cx) {
+                            all = false;
+                        } else {
+                            w.maybe_probe_ct();
+                        }
+                    }
+                }
+            }
+            if !w.dirty[me.host].get() {
+                break;
+            }
+        }
+        w.cur_host.set(prev_host);
+        touch();
+        if all { Poll::Ready(()) } else { Poll::Pending }
+    }
+}
+
+fn tick_finding(rule: &str, what: String) {
+    with_mon(|m| m.find(rule, "interval_tick", what));
+}
+
+async fn iv_actor(w: Rc<World>, spec: IvSpec) {
+    let period = Duration::from_nanos(spec.period);
+    let b0 = Instant::now();
+    let (mut iv, start_lo, start_hi) = if spec.plain {
+        let iv = time::interval(period);
+        (iv, b0, Instant::now())
+    } else {
+        let s = w.resolve(spec.start, b0);
+        (time::interval_at(s, period), s, s)
+    };
+    let mut start = if spec.plain { None } else { Some(start_lo) };
+    let mut prev: Option<Instant> = None;
+    let mut k = 0usize;
+    let mut check = |t: Instant, fp: Option<(Instant, Instant)>, k: &mut usize, prev: &mut Option<Instant>, start: &mut Option<Instant>, rec: Option<usize>| {
+        bump(&w.cnt.ticks);
+        if *k == 0 {
+            if spec.plain {
+                if t < start_lo || t > start_hi {
+                    tick_finding("interval-first-tick", format!("interval(period): first tick returned an instant {:?} outside the creation bracket", t));
+                }
+            } else if t != start_lo {
+                tick_finding(
+                    "interval-first-tick",
+                    format!("interval_at(start, period): first tick returned {} instead of start {}", ns(t), ns(start_lo)),
+                );
+            }
+            *start = Some(t);
+        } else if let Some(st) = *start {
+            if t < st || (t - st).as_nanos() % period.as_nanos() != 0 {
+                tick_finding(
+                    "interval-misaligned",
+                    format!("tick #{k} returned start + {} ns, not a multiple of the period {} ns", ns(t) - ns(st), spec.period),
+                );
+            }
+            if let Some(p) = *prev {
+                if t <= p {
+                    tick_finding("interval-not-increasing", format!("tick #{k} returned {} after the previous tick {}", ns(t), ns(p)));
+                } else if t - p > period {
+                    bump(&w.cnt.missed_ticks);
+                }
+            }
+            if let Some((_, c1)) = fp
+                && t > c1 + period
+            {
+                tick_finding(
+                    "interval-beyond-one-period",
+                    format!("tick #{k} first polled at {} returned {}, more than one period ({} ns) later", ns(c1), ns(t), spec.period),
+                );
+            }
+            if let Some(r) = rec {
+                let inside = with_mon(|m| ns(t) >= m.recs[r].d_lo && ns(t) <= m.recs[r].d_hi).unwrap_or(true);
+                if !inside {
+                    bump(&w.cnt.tick_model_mismatch);
+                }
+            }
+        }
+        *prev = Some(t);
+        *k += 1;
+    };
+    for (gap, abandon) in spec.ticks.iter() {
+        if aborted() {
+            return;
+        }
+        match gap {
+            Gap::None => {}
+            Gap::Yield => YieldOnce(false).await,
+            Gap::Async(x) => {
+                let c0 = Instant::now();
+                let d = Duration::from_nanos(*x);
+                let f = time::sleep(d);
+                let c1 = Instant::now();
+                let mut p = Probe::new(
+                    "sleep",
+                    Box::pin(async move {
+                        f.await;
+                        Out::Unit
+                    }),
+                );
+                let woken = p.woken.clone();
+                p.rec = with_mon(|m| m.create("sleep", ns(c0 + d), ns(c1 + d), ns(c0), ns(c1), woken));
+                (&mut p).await;
+                drop(p);
+            }
+            Gap::Block(x) => {
+                std::thread::sleep(Duration::from_nanos(*x));
+                touch();
+            }
+        }
+        for round in 0..2 {
+            if round == 0 && !*abandon {
+                continue;
+            }
+            let src = TickSrc {
+                start_lo: start.unwrap_or(start_lo),
+                start_hi: start.unwrap_or(start_hi),
+                period,
+                first: k == 0,
+            };
+            let mut p = Probe::new("interval_tick", Box::pin(async { Out::Tick(iv.tick().await) })).with_tick(src);
+            let out = if round == 0 { PollOnce(&mut p).await } else { Some((&mut p).await) };
+            let (fp, rec) = (p.first_poll, p.rec);
+            drop(p);
+            if let Some(Out::Tick(t)) = out {
+                check(t, fp, &mut k, &mut prev, &mut start, rec);
+            }
+            w.maybe_probe_ct();
+        }
+    }
+}
+
+async fn io_actor(w: Rc<World>, off: i64) {
+    let Some((r, wr)) = nb_pipe() else {
+        bump(&w.cnt.io_err);
+        return;
+    };
+    w.send(Cmd::Write(add_ns(w.t0.get(), off), wr));
+    if pipe_read(r).await {
+        bump(&w.cnt.io_done);
+    } else {
+        bump(&w.cnt.io_err);
+    }
+    w.maybe_probe_ct();
+}
+
+async fn xw_actor(w: Rc<World>, off: i64) {
+    let f = XFlag::new();
+    w.send(Cmd::Flag(add_ns(w.t0.get(), off), f.clone()));
+    XWait(f).await;
+    bump(&w.cnt.xw_done);
+    w.maybe_probe_ct();
+}
+
+async fn main_prog(w: Rc<World>) {
+    w.t0.set(Instant::now());
+    let prog = &w.prog;
+    if !prog.lazy {
+        for &id in prog.order.iter() {
+            w.create(id);
+        }
+        w.probe_ct();
+    }
+    let mut handles = Vec::new();
+    for h in 1..prog.nhosts {
+        let members: Vec<usize> = (0..prog.timers.len()).filter(|i| prog.timers[*i].host == h).collect();
+        handles.push(compio_runtime::spawn(Group {
+            w: w.clone(),
+            host: h,
+            members,
+            first: true,
+        }));
+    }
+    for iv in prog.ivs.iter() {
+        handles.push(compio_runtime::spawn(iv_actor(w.clone(), iv.clone())));
+    }
+    for off in prog.ios.iter() {
+        handles.push(compio_runtime::spawn(io_actor(w.clone(), *off)));
+    }
+    for off in prog.xws.iter() {
+        handles.push(compio_runtime::spawn(xw_actor(w.clone(), *off)));
+    }
+    let members: Vec<usize> = (0..prog.timers.len()).filter(|i| prog.timers[*i].host == 0).collect();
+    Group {
+        w: w.clone(),
+        host: 0,
+        members,
+        first: true,
+    }
+    .await;
+    for h in handles {
+        if let Err(compio_runtime::JoinError::Panicked(p)) = h.await {
+            std::panic::resume_unwind(p);
+        }
+    }
+    if aborted() {
+        return;
+    }
+    // everything that is still alive goes now, in the program's order
+    w.probe_ct();
+    for &id in prog.end_order.iter() {
+        let f = w.slots[id].fut.borrow_mut().take();
+        drop(f);
+        if w.rng.borrow_mut().chance(1, 4) {
+            w.probe_ct();
+        }
+    }
+    w.probe_ct();
+    // idle phase: nothing left, the run loop must block without a timeout
+    // until another thread wakes it
+    if prog.idle_ms > 0 {
+        let f = XFlag::new();
+        let at = (Instant::now() + Duration::from_millis(prog.idle_ms)).max(w.last_cmd.get() + Duration::from_millis(1));
+        w.send(Cmd::Flag(at, f.clone()));
+        with_mon(|m| m.idle = true);
+        XWait(f).await;
+        with_mon(|m| m.idle = false);
+        w.probe_ct();
+    }
+}
+
+// ---------------------------------------------------------------------------
+// Generator
+// ---------------------------------------------------------------------------
+
+fn near(rng: &mut Rng) -> i64 {
+    match rng.below(3) {
+        0 => rng.range(50_000, 1_000_000) as i64,
+        1 => rng.range(1_000_000, 10_000_000) as i64,
+        _ => rng.range(10_000_000, 40_000_000) as i64,
+    }
+}
+
+fn far(rng: &mut Rng) -> i64 {
+    *rng.pick(&[5_000_000_000i64, 3_600_000_000_000, 30 * 86_400_000_000_000, 3650 * 86_400_000_000_000])
+}
+
+fn pick_script(rng: &mut Rng, when: When) -> Script {
+    let nearish = matches!(when, When::At(o) if o < FAR_NS);
+    let d = when.off();
+    let delta = *rng.pick(&[-1_000_000i64, -50_000, -1_000, 0, 1_000, 50_000, 1_000_000]);
+    let at = (d + delta).max(0);
+    match rng.below(if nearish { 10 } else { 6 }) {
+        0..=2 => Script::Never,
+        3..=5 => Script::AtPoll {
+            k: rng.range(1, 4) as u32,
+            selfwake: rng.chance(1, 2),
+        },
+        6 | 7 => Script::WhenPast(at),
+        8 => Script::XWake(at),
+        _ => Script::Io(at),
+    }
+}
+
+struct SetOpts {
+    tmo_only: bool,
+    plain: bool,
+}
+
+/// Turn a list of deadlines into a full program.
+fn decorate(rng: &mut Rng, family: &'static str, shape: String, whens: Vec<When>, o: SetOpts) -> Prog {
+    let n = whens.len();
+    let nhosts = if o.plain { *rng.pick(&[1usize, 1, 2]) } else { *rng.pick(&[1usize, 1, 2, 3, 5]) };
+    let mut timers: Vec<TSpec> = whens
+        .iter()
+        .map(|w| {
+            let api = if o.tmo_only {
+                *rng.pick(&[Api::Timeout, Api::TimeoutAt])
+            } else {
+                *rng.pick(&[
+                    Api::Sleep,
+                    Api::Sleep,
+                    Api::Sleep,
+                    Api::SleepUntil,
+                    Api::SleepUntil,
+                    Api::SleepUntil,
+                    Api::Timeout,
+                    Api::TimeoutAt,
+                ])
+            };
+            let fate = if w.is_far() {
+                *rng.pick(&[Fate::Park, Fate::NoPoll, Fate::Await])
+            } else if o.plain {
+                Fate::Await
+            } else {
+                *rng.pick(&[Fate::Await, Fate::Await, Fate::Await, Fate::Await, Fate::Await, Fate::Await, Fate::Await, Fate::Await, Fate::Park, Fate::NoPoll])
+            };
+            TSpec {
+                api,
+                when: *w,
+                host: rng.below(nhosts),
+                by_act: false,
+                fate,
+                hold: !o.plain && rng.chance(1, 5),
+                fresh: !o.plain && rng.chance(1, 5),
+                script: if api.is_timeout() { pick_script(rng, *w) } else { Script::Never },
+                on_done: Vec::new(),
+                on_wake: Vec::new(),
+            }
+        })
+        .collect();
+    // roles
+    let mut role = vec![0u8; n]; // 0 free, 1 dropper/creator, 2 victim, 3 created-by-action
+    let guaranteed = |t: &TSpec| t.fate == Fate::Await && !t.when.is_far();
+    if !o.plain && n >= 2 {
+        let ndrop = rng.below((n / 2).min(4) + 1);
+        for _ in 0..ndrop {
+            let src: Vec<usize> = (0..n).filter(|i| role[*i] <= 1 && guaranteed(&timers[*i])).collect();
+            let vic: Vec<usize> = (0..n).filter(|i| role[*i] == 0 || role[*i] == 3).collect();
+            if src.is_empty() || vic.is_empty() {
+                break;
+            }
+            let s = *rng.pick(&src);
+            let v = *rng.pick(&vic);
+            if s == v {
+                continue;
+            }
+            role[s] = 1;
+            if role[v] == 0 {
+                role[v] = 2;
+            }
+            timers[s].on_done.push(Act::Drop(v));
+        }
+        let ncreate = rng.below((n / 3).min(3) + 1);
+        for _ in 0..ncreate {
+            let src: Vec<usize> = (0..n).filter(|i| role[*i] <= 1 && guaranteed(&timers[*i])).collect();
+            let tgt: Vec<usize> = (0..n).filter(|i| role[*i] == 0).collect();
+            if src.is_empty() || tgt.is_empty() {
+                break;
+            }
+            let s = *rng.pick(&src);
+            let c = *rng.pick(&tgt);
+            if s == c {
+                continue;
+            }
+            role[s] = 1;
+            role[c] = 3;
+            timers[c].by_act = true;
+            timers[s].on_done.push(Act::Create(c));
+        }
+    }
+    // far timers that would be awaited need someone to drop them
+    let victims: Vec<bool> = (0..n).map(|i| timers.iter().any(|t| t.on_done.iter().any(|a| matches!(a, Act::Drop(v) if *v == i)))).collect();
+    for (i, t) in timers.iter_mut().enumerate() {
+        if t.when.is_far() && t.fate == Fate::Await && !victims[i] {
+            t.fate = Fate::Park;
+        }
+        // an awaited timeout whose inner never finishes and whose deadline is
+        // far: same thing
+        if t.when.is_far() && !matches!(t.script, Script::Never | Script::AtPoll { .. }) {
+            t.script = Script::Never;
+        }
+    }
+    let starts: Vec<usize> = (0..n).filter(|i| !timers[*i].by_act).collect();
+    let mut order = starts.clone();
+    match rng.below(4) {
+        0 => {}
+        1 => order.reverse(),
+        2 => rng.shuffle(&mut order),
+        _ => order.sort_by_key(|i| std::cmp::Reverse(whens[*i].off())),
+    }
+    let mut end_order: Vec<usize> = (0..n).collect();
+    match rng.below(3) {
+        0 => {}
+        1 => end_order.reverse(),
+        _ => rng.shuffle(&mut end_order),
+    }
+    // I/O completions and cross-thread wakes near deadlines
+    let mut ios = Vec::new();
+    let mut xws = Vec::new();
+    let nears: Vec<i64> = whens.iter().filter(|w| !w.is_far()).map(|w| w.off()).collect();
+    if !o.plain && !nears.is_empty() && rng.chance(2, 5) {
+        for _ in 0..rng.range(1, 3) {
+            let d = *rng.pick(&nears) + *rng.pick(&[-200_000i64, -20_000, 0, 20_000, 200_000, 2_000_000]);
+            if rng.chance(1, 2) {
+                ios.push(d.max(10_000));
+            } else {
+                xws.push(d.max(10_000));
+            }
+        }
+    }
+    Prog {
+        family,
+        shape,
+        drv: if rng.chance(1, 2) { Drv::Iour } else { Drv::Poll },
+        ev_int: *rng.pick(&[61usize, 61, 61, 1, 2, 7]),
+        lazy: !o.plain && rng.chance(1, 4),
+        nhosts,
+        timers,
+        order,
+        end_order,
+        ios,
+        xws,
+        ivs: Vec::new(),
+        idle_ms: *rng.pick(&[0u64, 5, 10, 15]),
+        ct_prob: *rng.pick(&[0usize, 20, 50, 100]),
+    }
+}
+
+fn cluster(rng: &mut Rng, at: i64, out: &mut Vec<When>) {
+    let k = rng.range(1, 4);
+    let spread = *rng.pick(&[0i64, 1, 1_000, 2_000_000]);
+    for i in 0..k {
+        let d = match spread {
+            0 => 0,
+            1 | 1_000 => spread * i as i64,
+            s => rng.below(s as usize + 1) as i64,
+        };
+        out.push(When::At(at + d));
+    }
+}
+
+fn gen_dense(rng: &mut Rng) -> (String, Vec<When>) {
+    let mut w = Vec::new();
+    let shape = *rng.pick(&["single", "equal", "ladder-1us", "ladder-1ns", "dense-ms", "pastnow-mix"]);
+    match shape {
+        "single" => w.push(When::At(near(rng))),
+        "equal" => {
+            let d = near(rng);
+            for _ in 0..rng.range(2, 6) {
+                w.push(When::At(d));
+            }
+        }
+        "ladder-1us" | "ladder-1ns" => {
+            let d = near(rng);
+            let step = if shape == "ladder-1us" { 1_000 } else { 1 };
+            for i in 0..rng.range(2, 12) {
+                w.push(When::At(d + step * i as i64));
+            }
+            rng.shuffle(&mut w);
+        }
+        "dense-ms" => {
+            for _ in 0..rng.range(2, 12) {
+                w.push(When::At(rng.range(100_000, 30_000_000) as i64));
+            }
+        }
+        _ => {
+            for _ in 0..rng.range(1, 3) {
+                w.push(When::Past(*rng.pick(&[1u64, 1_000, 1_000_000, 1_000_000_000])));
+            }
+            for _ in 0..rng.range(1, 2) {
+                w.push(When::Now);
+            }
+            for _ in 0..rng.range(0, 4) {
+                w.push(When::At(near(rng)));
+            }
+            rng.shuffle(&mut w);
+        }
+    }
+    (shape.to_string(), w)
+}
+
+fn gen_prog(rng: &mut Rng, only: Option<&str>) -> Prog {
+    let fams: &[(&'static str, usize)] = &[
+        ("gapped", 22),
+        ("dense", 38),
+        ("timeout", 12),
+        ("interval", 14),
+        ("big", 6),
+        ("faronly", 5),
+        ("reentrant", 3),
+    ];
+    let family: &'static str = match only {
+        Some(f) => fams.iter().find(|x| x.0 == f).map_or("dense", |x| x.0),
+        None => {
+            let tot: usize = fams.iter().map(|f| f.1).sum();
+            let mut x = rng.below(tot);
+            let mut r = fams[0].0;
+            for f in fams {
+                if x < f.1 {
+                    r = f.0;
+                    break;
+                }
+                x -= f.1;
+            }
+            r
+        }
+    };
+    let dflt = SetOpts { tmo_only: false, plain: false };
+    match family {
+        "gapped" => {
+            let nclusters = rng.range(2, 3);
+            let mut w = Vec::new();
+            let mut at = rng.range(5_000_000, 40_000_000) as i64;
+            for _ in 0..nclusters {
+                cluster(rng, at, &mut w);
+                at += rng.range(300_000_000, 360_000_000) as i64;
+            }
+            let mut shape = format!("gapped{nclusters}");
+            if rng.chance(1, 3) {
+                for _ in 0..rng.range(1, 2) {
+                    w.push(When::At(far(rng)));
+                }
+                shape.push_str("+far");
+            }
+            rng.shuffle(&mut w);
+            let mut p = decorate(rng, family, shape, w, dflt);
+            p.idle_ms = p.idle_ms.min(5);
+            p
+        }
+        "dense" => {
+            let (mut shape, mut w) = gen_dense(rng);
+            if rng.chance(1, 4) {
+                w.push(When::At(far(rng)));
+                shape.push_str("+far");
+            }
+            decorate(rng, family, shape, w, dflt)
+        }
+        "timeout" => {
+            let (shape, w) = gen_dense(rng);
+            decorate(rng, family, shape, w, SetOpts { tmo_only: true, plain: false })
+        }
+        "big" => {
+            let mut w = Vec::new();
+            let n = rng.range(17, 64);
+            while w.len() < n {
+                match rng.below(4) {
+                    0 => {
+                        let d = near(rng);
+                        w.push(When::At(d));
+                        w.push(When::At(d));
+                    }
+                    1 => {
+                        let d = near(rng);
+                        for i in 0..rng.range(2, 5) {
+                            w.push(When::At(d + i as i64 * 1_000));
+                        }
+                    }
+                    2 => w.push(*rng.pick(&[When::Now, When::Past(1), When::Past(1_000_000)])),
+                    _ => w.push(When::At(rng.range(100_000, 30_000_000) as i64)),
+                }
+            }
+            w.truncate(64);
+            if rng.chance(1, 3) {
+                w.pop();
+                w.push(When::At(far(rng)));
+            }
+            rng.shuffle(&mut w);
+            decorate(rng, family, "big".into(), w, dflt)
+        }
+        "faronly" => {
+            // only far timers are waiting while I/O / cross-thread wakes arrive
+            let mut w = Vec::new();
+            for _ in 0..rng.range(1, 3) {
+                w.push(When::At(far(rng)));
+            }
+            let mut p = decorate(rng, family, "far-only".into(), w, SetOpts { tmo_only: false, plain: true });
+            for t in p.timers.iter_mut() {
+                t.fate = *rng.pick(&[Fate::Park, Fate::Park, Fate::NoPoll]);
+                t.script = Script::Never;
+            }
+            for _ in 0..rng.range(1, 3) {
+                let d = rng.range(1_000_000, 30_000_000) as i64;
+                if rng.chance(1, 2) {
+                    p.ios.push(d);
+                } else {
+                    p.xws.push(d);
+                }
+            }
+            p.idle_ms = 5;
+            p
+        }
+        "reentrant" => {
+            let n = rng.range(2, 4);
+            let mut w = Vec::new();
+            for _ in 0..n {
+                w.push(When::At(rng.range(1_000_000, 20_000_000) as i64));
+            }
+            let mut p = decorate(rng, family, "dense-ms".into(), w, SetOpts { tmo_only: false, plain: true });
+            for t in p.timers.iter_mut() {
+                t.api = *rng.pick(&[Api::Sleep, Api::SleepUntil]);
+                t.script = Script::Never;
+            }
+            // the earliest timer's waker acts on another one
+            let a = (0..n).min_by_key(|i| p.timers[*i].when.off()).unwrap();
+            let v = (a + 1 + rng.below(n - 1)) % n;
+            if rng.chance(1, 2) {
+                p.timers[a].on_wake.push(Act::Drop(v));
+                p.shape = "drop-in-waker".into();
+            } else {
+                p.timers[v].by_act = true;
+                p.order.retain(|i| *i != v);
+                p.timers[a].on_wake.push(Act::Create(v));
+                p.shape = "create-in-waker".into();
+            }
+            p.idle_ms = 0;
+            p
+        }
+        _ => {
+            // interval
+            let nact = rng.range(1, 3);
+            let mut ivs = Vec::new();
+            for _ in 0..nact {
+                let period = *rng.pick(&[333_000u64, 1_000_000, 2_500_000, 7_000_000, 20_000_000]);
+                let nt = rng.range(2, if period >= 7_000_000 { 5 } else { 10 });
+                let ticks = (0..nt)
+                    .map(|_| {
+                        let g = match rng.below(8) {
+                            0..=2 => Gap::None,
+                            3 => Gap::Yield,
+                            4 | 5 => Gap::Async(rng.range(10_000, 3 * period as usize) as u64),
+                            _ => Gap::Block(rng.range(10_000, 3 * period as usize) as u64),
+                        };
+                        (g, rng.chance(1, 6))
+                    })
+                    .collect();
+                ivs.push(IvSpec {
+                    start: *rng.pick(&[When::Now, When::Past(1_000), When::Past(5_000_000), When::At(1_000_000), When::At(10_000_000)]),
+                    plain: rng.chance(1, 3),
+                    period,
+                    ticks,
+                });
+            }
+            let mut w = Vec::new();
+            for _ in 0..rng.below(5) {
+                w.push(When::At(near(rng)));
+            }
+            let mut p = decorate(rng, "interval", format!("iv{nact}"), w, dflt);
+            p.ivs = ivs;
+            p
+        }
+    }
+}
+
+// ---------------------------------------------------------------------------
+// Running one program
+// ---------------------------------------------------------------------------
+
+struct Outcome {
+    finished: bool,
+    panic: Option<panics::PanicInfo>,
+    mon: Option<Mon>,
+    stalled: bool,
+    unsupported: Option<String>,
+    why_abort: Option<String>,
+    wall_ms: u64,
+}
+
+fn run_prog(p: &Prog, kick: &mpsc::Sender<Cmd>, rng: Rng, counters: &mut dyn FnMut(&World)) -> Outcome {
+    let started = Instant::now();
+    let stalls0 = STALLS.load(Ordering::SeqCst);
+    mon::ABORT.store(false, Ordering::SeqCst);
+    *mon::ABORT_WHY.lock().unwrap_or_else(|e| e.into_inner()) = None;
+    let mut pb = ProactorBuilder::new();
+    pb.driver_type(match p.drv {
+        Drv::Iour => DriverType::IoUring,
+        Drv::Poll => DriverType::Poll,
+    });
+    let rt = match Runtime::builder().with_proactor(pb).event_interval(p.ev_int).build() {
+        Ok(rt) => rt,
+        Err(e) => {
+            return Outcome {
+                finished: false,
+                panic: None,
+                mon: None,
+                stalled: false,
+                unsupported: Some(format!("cannot build a {} runtime: {e}", p.drv.name())),
+                why_abort: None,
+                wall_ms: 0,
+            };
+        }
+    };
+    mon::MON.with(|m| *m.borrow_mut() = Some(Mon::new()));
+    verif::drain();
+    verif::enable(true);
+    let world = World::new(p.clone(), kick.clone(), rng);
+    {
+        let w = Rc::downgrade(&world);
+        let hook: Rc<dyn Fn(usize)> = Rc::new(move |id| {
+            if let Some(w) = w.upgrade() {
+                let acts = w.prog.timers[id].on_wake.clone();
+                for a in acts {
+                    w.act(a);
+                }
+            }
+        });
+        mon::WAKE_HOOK.with(|h| *h.borrow_mut() = Some(hook));
+    }
+    WD_DEADLINE.store(now_ns() + p.horizon() + 2_500_000_000 + p.idle_ms as i64 * 1_000_000, Ordering::SeqCst);
+    let r = panics::catch(|| rt.block_on(MainFut(Box::pin(main_prog(world.clone())))));
+    WD_DEADLINE.store(0, Ordering::SeqCst);
+    verif::enable(false);
+    verif::drain();
+    mon::WAKE_HOOK.with(|h| *h.borrow_mut() = None);
+    *MAIN_WAKER.lock().unwrap_or_else(|e| e.into_inner()) = None;
+    counters(&world);
+    let m = mon::MON.with(|m| m.borrow_mut().take());
+    // tear down without the monitor: what is left is dropped with the runtime
+    let _ = panics::catch(|| {
+        world.clear();
+        drop(rt);
+    });
+    drop(world);
+    let why = mon::ABORT_WHY.lock().unwrap_or_else(|e| e.into_inner()).clone();
+    Outcome {
+        finished: matches!(r, Ok(true)),
+        panic: r.err(),
+        mon: m,
+        stalled: STALLS.load(Ordering::SeqCst) != stalls0,
+        unsupported: None,
+        why_abort: why,
+        wall_ms: started.elapsed().as_millis() as u64,
+    }
+}
+
+fn record(rep: &mut Report, p: &Prog, o: Outcome, replay: Value) {
+    let drv = p.drv.name();
+    if let Some(u) = o.unsupported {
+        rep.eval(None);
+        rep.inconclusive(&u);
+        return;
+    }
+    rep.eval(Some(p.sig()));
+    rep.max("program_wall_ms", o.wall_ms as i64);
+    rep.floor(&format!("driver-{drv}"), true);
+    let mut nviol = 0;
+    if let Some(pi) = &o.panic {
+        match pi.origin() {
+            panics::Origin::Repo(_) => {
+                let ctx = if p.family == "reentrant" { p.shape.clone() } else { format!("{}:{}", p.family, p.shape) };
+                rep.violation(
+                    &format!("C09/{}/{ctx}/{drv}", pi.sig()),
+                    &format!("panic in compio at {}:{}: {}", pi.file, pi.line, pi.message),
+                    replay.clone(),
+                );
+                nviol += 1;
+            }
+            o => rep.inconclusive(&format!("harness panic {o:?}: {}", pi.message)),
+        }
+    }
+    let Some(m) = o.mon else { return };
+    if o.panic.is_none() {
+        for f in m.findings.iter() {
+            let what = format!("{} | recent driver polls: {}", f.what, m.recent_polls());
+            rep.violation(&format!("C09/{}/{}/{drv}/{}", f.rule, f.api, p.shape), &what, replay.clone());
+            nviol += 1;
+        }
+        if !m.too_long.is_empty() {
+            if o.stalled {
+                rep.inconclusive("always-fires timeout sub-check skipped: heartbeat saw a scheduling stall");
+            } else {
+                for f in m.too_long.iter() {
+                    let what = format!("{} | recent driver polls: {}", f.what, m.recent_polls());
+                    rep.violation(&format!("C09/{}/{}/{drv}/{}", f.rule, f.api, p.shape), &what, replay.clone());
+                    nviol += 1;
+                }
+            }
+        }
+        if !o.finished && nviol == 0 {
+            rep.inconclusive(&format!(
+                "program did not finish ({}); no monitor rule fired",
+                o.why_abort.clone().unwrap_or_else(|| "?".into())
+            ));
+        }
+        if o.finished && m.stats.max_late_ns > 1_000_000_000 && nviol == 0 {
+            rep.inconclusive("a timer completed more than 1 s after its deadline without a monitor rule firing");
+        }
+    }
+    let s = &m.stats;
+    if o.stalled {
+        rep.count("programs_with_heartbeat_stall", 1);
+    }
+    rep.count("driver_polls", s.cycles as i64);
+    rep.count("driver_polls_with_waiting_timers", s.polls_waiting as i64);
+    rep.count("driver_polls_timeout_within_bound", s.polls_waiting_checked as i64);
+    rep.count("timeout_check_skipped_self_gap", s.self_gap_skips as i64);
+    rep.count("driver_polls_without_pollenter_event", s.no_pollenter as i64);
+    rep.count("timer_completions", s.completed as i64);
+    rep.count("expiry_completions_checked_not_early", s.expired_completions as i64);
+    rep.count("expired_waiting_timers_checked_woken", s.due_checked as i64);
+    rep.count("current_timeout_probes", s.ct_probes as i64);
+    rep.count("current_timeout_probes_some", s.ct_probes_some as i64);
+    rep.count("idle_polls_infinite", s.idle_inf as i64);
+    rep.count("drops_while_waiting", s.drops_waiting as i64);
+    rep.count("drops_after_completion", s.drops_done as i64);
+    rep.count("drops_never_polled", s.drops_unpolled as i64);
+    rep.max("max_lateness_us", s.max_late_ns / 1000);
+    rep.max("max_driver_polls_per_program", s.cycles as i64);
+    rep.floor("never-early-checked", s.expired_completions > 0);
+    rep.floor("poll-entered-with-waiting-timers", s.polls_waiting_checked > 0);
+    rep.floor("gapped-set-poll-timeout-checked", p.family == "gapped" && s.polls_waiting_checked > 0);
+    rep.floor("expired-timer-woken-checked", s.due_checked > 0);
+    rep.floor("drop-while-waiting", s.drops_waiting > 0);
+    rep.floor("drop-after-fire", s.drops_done > 0);
+    rep.floor("drop-never-polled", s.drops_unpolled > 0);
+    rep.floor("idle-infinite-poll", s.idle_inf > 0);
+    rep.floor("current-timeout-probed-some", s.ct_probes_some > 0);
+    rep.floor("equal-deadlines", p.shape.starts_with("equal") || p.family == "big");
+    rep.floor("big-set-64", p.timers.len() >= 48);
+}
+
+pub fn main(args: &Args) {
+    base();
+    let rep = Arc::new(Mutex::new(Report::from_args("C09", &args.str("leg", "plain"), args)));
+    verif::set_pause_hook(Some(mon::pause_hook));
+    let (tx, rx) = mpsc::channel::<Cmd>();
+    std::thread::Builder::new().name("c09-kicker".into()).spawn(move || kicker(rx)).expect("spawn kicker");
+    {
+        let rep = rep.clone();
+        std::thread::Builder::new().name("c09-heartbeat".into()).spawn(move || heartbeat(rep)).expect("spawn heartbeat");
+    }
+    let only = args.get("family").map(|s| s.to_string());
+    let base_rng = Rng::new(args.seed()).fork(args.shard() + 1);
+
+    let mut tot = Totals::default();
+    let mut run_one = |index: u64, seed: u64, shard: u64, only: Option<&str>, rep: &Arc<Mutex<Report>>| {
+        let g = Rng::new(seed).fork(shard + 1).fork(index);
+        let mut rng = g.clone();
+        let p = gen_prog(&mut rng, only);
+        let replay = json!({"seed": seed, "shard": shard, "index": index, "family_arg": only, "program": p.to_json()});
+        let mut grab = |w: &World| tot.add(w);
+        let o = run_prog(&p, &tx, g.fork(0xC09), &mut grab);
+        let mut r = rep.lock().unwrap_or_else(|e| e.into_inner());
+        if r.want_sample() && p.timers.len() >= 3 && o.finished {
+            r.sample(p.to_json());
+        }
+        record(&mut r, &p, o, replay);
+    };
+
+    if let Some(path) = args.get("replay") {
+        let text = std::fs::read_to_string(path).expect("replay file");
+        let v: Value = vcommon::serde_json::from_str(&text).expect("replay json");
+        let pr = &v["program"];
+        let seed = pr["seed"].as_u64().unwrap_or(1);
+        let shard = pr["shard"].as_u64().unwrap_or(0);
+        let index = pr["index"].as_u64().unwrap_or(0);
+        let fam = pr["family_arg"].as_str().map(|s| s.to_string());
+        for _ in 0..args.usize("repeat", 5) {
+            run_one(index, seed, shard, fam.as_deref(), &rep);
+        }
+    } else {
+        let _ = base_rng;
+        let iters = args.iters(100_000, 1_000_000) as u64;
+        let mut i = 0u64;
+        while i < iters {
+            if rep.lock().unwrap_or_else(|e| e.into_inner()).out_of_time() {
+                break;
+            }
+            run_one(i, args.seed(), args.shard(), only.as_deref(), &rep);
+            i += 1;
+        }
+    }
+    let mut r = rep.lock().unwrap_or_else(|e| e.into_inner());
+    tot.report(&mut r);
+    r.max("max_heartbeat_gap_ms", MAX_HB_GAP_NS.load(Ordering::Relaxed) / 1_000_000);
+    r.count("heartbeat_stalls", STALLS.load(Ordering::SeqCst) as i64);
+    r.note("slack 100 ms for driver-poll timeouts; never-early and the wake/ready/current_timeout rules have no slack");
+    r.finish();
+    std::process::exit(0);
+}
+
+#[derive(Default)]
+struct Totals {
+    tmo_ok: u64,
+    tmo_err: u64,
+    tmo_ok_at_expiry: u64,
+    ticks: u64,
+    missed: u64,
+    mismatch: u64,
+    io_done: u64,
+    io_err: u64,
+    xw: u64,
+    drops: u64,
+    drops_other: u64,
+    creates: u64,
+    past: u64,
+}
+
+impl Totals {
+    fn add(&mut self, w: &World) {
+        let c = &w.cnt;
+        self.tmo_ok += c.tmo_ok.get();
+        self.tmo_err += c.tmo_err.get();
+        self.tmo_ok_at_expiry += c.tmo_ok_at_expiry.get();
+        self.ticks += c.ticks.get();
+        self.missed += c.missed_ticks.get();
+        self.mismatch += c.tick_model_mismatch.get();
+        self.io_done += c.io_done.get();
+        self.io_err += c.io_err.get();
+        self.xw += c.xw_done.get();
+        self.drops += c.acts_drop.get();
+        self.drops_other += c.acts_drop_in_other_task.get();
+        self.creates += c.acts_create.get();
+        self.past += c.created_past.get();
+    }
+
+    fn report(&self, r: &mut Report) {
+        r.count("timeouts_ok", self.tmo_ok as i64);
+        r.count("timeouts_elapsed", self.tmo_err as i64);
+        r.count("timeouts_ok_at_or_after_deadline", self.tmo_ok_at_expiry as i64);
+        r.count("interval_ticks", self.ticks as i64);
+        r.count("interval_ticks_after_missed_periods", self.missed as i64);
+        r.count("interval_tick_model_mismatch", self.mismatch as i64);
+        r.count("pipe_reads_completed", self.io_done as i64);
+        r.count("pipe_read_errors", self.io_err as i64);
+        r.count("cross_thread_wakes_awaited", self.xw as i64);
+        r.count("drop_actions", self.drops as i64);
+        r.count("drop_actions_from_another_task", self.drops_other as i64);
+        r.count("create_actions", self.creates as i64);
+        r.count("timers_created_already_due", self.past as i64);
+        r.floor("timeout-ok", self.tmo_ok > 0);
+        r.floor("timeout-elapsed", self.tmo_err > 0);
+        r.floor("timeout-inner-wins-at-expiry", self.tmo_ok_at_expiry > 0);
+        r.floor("interval-ticks", self.ticks > 0);
+        r.floor("interval-missed-periods", self.missed > 0);
+        r.floor("pipe-read-race", self.io_done > 0);
+        r.floor("cross-thread-wake", self.xw > 0);
+        r.floor("drop-from-another-task", self.drops_other > 0);
+        r.floor("timer-created-already-due", self.past > 0);
+        if self.mismatch > 0 {
+            r.inconclusive("interval tick returned an instant outside the harness model of the next tick; timeout/wake rules for that tick are unreliable");
+        }
+        if self.io_err > 0 {
+            r.inconclusive("a pipe read of the harness failed (not a timer matter)");
+        }
+    }
 }
